@@ -199,6 +199,24 @@ def w09_peewee_upsert_moves_foreign(tmp):
     return None
 
 
+def w16_peewee_insert_one_with_id_moves_foreign(tmp):
+    from aw_datastore.storages import PeeweeStorage
+    s = PeeweeStorage(testing=True, filepath=os.path.join(tmp, "p.db"))
+    try:
+        _mk(s, "a", "b")
+        ea = s.insert_one("a", _ev(0, 1, {"x": "a0"}))
+        try:
+            s.insert_one("b", _ev(3, 1, {"x": "stolen"}, eid=ea.id))
+        except Exception:
+            pass  # rejecting is allowed
+        a = [e.data["x"] for e in s.get_events("a", -1)]
+        if a != ["a0"]:
+            return f"insert of an event carrying a foreign id into b changed bucket a: {a}"
+    finally:
+        s.db.close()
+    return None
+
+
 def w10_migration_loses_events(tmp):
     from aw_datastore.storages import PeeweeStorage, SqliteStorage
     pw = PeeweeStorage(testing=True)
